@@ -101,6 +101,8 @@ class RaftOracle:
         self.cands_of: dict = {}         # term -> set(node idx)
         self.double_vote: dict = {}      # term -> detail
         self.leader_events = 0
+        self.backoffs = 0
+        self.led_terms = [set() for _ in range(n)]
         # commits / applies
         self.ledger: list = []           # i-1 -> (term, cmd, commit_term, by)
         self.applied_at: list = []       # i-1 -> (cmd, by)
@@ -195,6 +197,11 @@ class RaftOracle:
                 return
             handled_seq, ae_seq = self.rv_queue[voter].popleft() if self.rv_queue[voter] else (self.seq, -1)
             if not md.get("vote_granted"):
+                prev = self.votes.get((voter, md.get("term")))
+                if prev is not None and prev[0] != md.get("destination"):
+                    self.probes["second_candidate_refused_in_voted_term"] += 1
+                    if ae_seq > prev[1]:
+                        self.probes["revote_refused_after_same_term_append"] += 1
                 return
             t = md.get("term")
             cand = md.get("destination")
@@ -217,7 +224,13 @@ class RaftOracle:
                 return
             la = self.ae_queue[p].popleft() if self.ae_queue[p] else None
             if not md.get("success"):
+                if md.get("term") == self.nodes[l].current_term and self.role[l] == "L":
+                    self.backoffs += 1
+                    if self.backoffs == 3:
+                        self.probes["next_index_backed_off_3_times"] += 1
                 return
+            if la is not None and md.get("match_index", 0) < la[3]:
+                self.probes["longer_follower_reported_only_what_matched"] += 1
             t = md.get("term")
             m = md.get("match_index", 0)
             ln, pn = self.nodes[l], self.nodes[p]
@@ -360,6 +373,11 @@ class RaftOracle:
             if cur is None:
                 self.leader_of[term] = i
                 self.leader_events += 1
+                self.led_terms[i].add(term)
+                if len(self.led_terms[i]) == 2:
+                    self.probes["same_node_leader_in_two_terms"] += 1
+                if self.leader_events == 5:
+                    self.probes["five_leader_elections"] += 1
                 top = max(len(l) for l in self.logs)
                 if self.leader_events > 1 and top > len(self.ledger):
                     self.probes["leader_change_while_entry_uncommitted"] += 1
@@ -413,6 +431,8 @@ class RaftOracle:
             if holders < self.quorum:
                 self.probes["commit_without_quorum_holding_entry"] += 1
             self.ledger.append((e.term, e.command, term, i, holders >= self.quorum))
+            if e.term < term:
+                self.probes["earlier_term_entry_committed_under_later_term"] += 1
             grew = True
         if grew:
             for j in range(self.n):
@@ -529,3 +549,5 @@ class RaftOracle:
                 self._futures(i)
             if ROLE[self.nodes[i].state] == "L":
                 self._leader_completeness(i)
+            if any(s["lost"] and not s["fut"].is_resolved for s in self.subs[i]):
+                self.probes["future_of_overwritten_submit_left_unresolved"] += 1
